@@ -29,7 +29,7 @@ use std::collections::BTreeMap;
 use std::io::{self, Read, Write};
 use std::net::{IpAddr, Ipv4Addr, Ipv6Addr};
 use std::str::FromStr;
-use std::sync::Mutex;
+use std::sync::{Arc, Mutex};
 use bytes::Bytes;
 use rayon::prelude::*;
 use rpki::crypto::KeyIdentifier;
@@ -272,6 +272,174 @@ impl MFile {
                 opt("aspaAssertions", self.aa.as_ref().map(|l| arr(l, |x| x.json())))]))),
         ])
     }
+}
+
+//------------ a JSON tree whose member order can be changed ------------------
+
+#[derive(Clone, Debug)]
+enum J { Obj(Vec<(String, J)>), Arr(Vec<J>), Raw(String) }
+
+fn jparse(s: &[u8], i: &mut usize) -> J {
+    let ws = |i: &mut usize| while *i < s.len() && (s[*i] as char).is_ascii_whitespace() { *i += 1 };
+    let string = |i: &mut usize| -> String { let st = *i; *i += 1; while s[*i] != b'"' { if s[*i] == b'\\' { *i += 1 } *i += 1 } *i += 1; String::from_utf8_lossy(&s[st..*i]).to_string() };
+    ws(i);
+    match s[*i] {
+        b'{' => { *i += 1; let mut m = Vec::new(); loop { ws(i); if s[*i] == b'}' { *i += 1; break } if s[*i] == b',' { *i += 1; continue } let k = string(i); ws(i); *i += 1; let v = jparse(s, i); m.push((k, v)) } J::Obj(m) }
+        b'[' => { *i += 1; let mut m = Vec::new(); loop { ws(i); if s[*i] == b']' { *i += 1; break } if s[*i] == b',' { *i += 1; continue } m.push(jparse(s, i)) } J::Arr(m) }
+        b'"' => J::Raw(string(i)),
+        _ => { let st = *i; while *i < s.len() && !b",]} \n\t\r".contains(&s[*i]) { *i += 1 } J::Raw(String::from_utf8_lossy(&s[st..*i]).to_string()) }
+    }
+}
+
+impl J {
+    fn parse(text: &str) -> J { jparse(text.as_bytes(), &mut 0) }
+    fn write(&self) -> String {
+        match self { J::Raw(r) => r.clone(), J::Arr(a) => format!("[{}]", a.iter().map(|x| x.write()).collect::<Vec<_>>().join(",")),
+            J::Obj(m) => format!("{{{}}}", m.iter().map(|(k, v)| format!("{k}:{}", v.write())).collect::<Vec<_>>().join(",")) }
+    }
+    /// member counts of all objects, in depth-first order
+    fn objects(&self, out: &mut Vec<usize>) {
+        match self { J::Raw(_) => {} J::Arr(a) => for x in a { x.objects(out) }, J::Obj(m) => { out.push(m.len()); for (_, v) in m { v.objects(out) } } }
+    }
+    /// applies `f` to the members of the idx-th object (depth-first), or to all when idx is None
+    fn reorder(&mut self, idx: Option<usize>, counter: &mut usize, f: &dyn Fn(&mut Vec<(String, J)>)) {
+        match self { J::Raw(_) => {} J::Arr(a) => for x in a { x.reorder(idx, counter, f) },
+            J::Obj(m) => { let me = *counter; *counter += 1; for (_, v) in m.iter_mut() { v.reorder(idx, counter, f) } if idx.map_or(true, |i| i == me) { f(m) } } }
+    }
+}
+
+/// Orders to try for an object of n members: all permutations up to 4, else sorted / reversed / every rotation.
+fn member_orders(n: usize) -> Vec<Vec<usize>> {
+    if n <= 4 { rpki_verif::engine::enumerate::permutations(n) } else {
+        let id: Vec<usize> = (0..n).collect();
+        let mut v = vec![id.clone(), id.iter().rev().copied().collect()];
+        for r in 1..n { v.push((0..n).map(|i| (i + r) % n).collect()) }
+        v
+    }
+}
+
+/// Every object of the document with its members in every order (one object
+/// at a time), plus all objects at once sorted by key / reversed / rotated:
+/// the verdict and the parsed file must be those of the given text.
+fn check_member_orders(lf: &mut Lf, oc: &mut Oc, text: &str, name: &dyn Fn() -> String) -> u64 {
+    let tree = J::parse(text);
+    let base = guard(|| SlurmFile::from_str(text).map_err(|e| e.to_string()));
+    let mut sizes = Vec::new(); tree.objects(&mut sizes);
+    let mut variants: Vec<(String, String)> = Vec::new();
+    for (idx, &n) in sizes.iter().enumerate() { for perm in member_orders(n) {
+        if perm.iter().enumerate().all(|(i, p)| i == *p) { continue }
+        let mut t = tree.clone();
+        t.reorder(Some(idx), &mut 0, &|m| { let old = m.clone(); for (i, p) in perm.iter().enumerate() { m[i] = old[*p].clone() } });
+        variants.push((format!("object #{idx} in order {perm:?}"), t.write()));
+    }}
+    for (label, f) in [("all objects sorted by key", (|m: &mut Vec<(String, J)>| m.sort_by(|a, b| a.0.cmp(&b.0))) as fn(&mut Vec<(String, J)>)), ("all objects sorted by key, descending", |m| { m.sort_by(|a, b| b.0.cmp(&a.0)) }),
+        ("all objects reversed", |m| m.reverse()), ("all objects rotated", |m| if !m.is_empty() { m.rotate_left(1) })] {
+        let mut t = tree.clone(); t.reorder(None, &mut 0, &f); variants.push((label.to_string(), t.write()));
+    }
+    let n = variants.len() as u64;
+    for (label, v) in variants {
+        match (guard(|| SlurmFile::from_str(&v).map_err(|e| e.to_string())), &base) {
+            (Err(p), _) => lf.fail("C15.json.no_panic", || format!("{} {label}", clip(&name())), || p.clone()),
+            (Ok(Ok(g)), Ok(Ok(f))) => if g == *f { bump(oc, "same-file-in-other-order") } else { lf.fail("C15.json.member_order", || format!("{} {label}", clip(&name())), || format!("parses to a different file than the original order; text={}", clip(&v))) },
+            (Ok(Err(_)), Ok(Err(_))) => bump(oc, "rejected-in-every-order"),
+            (Ok(Ok(_)), Ok(Err(e))) => lf.fail("C15.json.member_order", || format!("{} {label}", clip(&name())), || format!("accepted, but the original order is rejected ({e}); text={}", clip(&v))),
+            (Ok(Err(e)), Ok(Ok(_))) => lf.fail("C15.json.member_order", || format!("{} {label}", clip(&name())), || format!("rejected ({e}), but the original order is accepted; text={}", clip(&v))),
+            (_, Err(_)) => {}
+        }
+    }
+    n
+}
+
+//------------ subjects and predecessors for the history dimension -----------
+
+type Act = Arc<dyn Fn() -> String + Send + Sync>;
+fn act(name: &str, f: impl Fn() -> String + Send + Sync + 'static) -> (String, Act) { (name.to_string(), Arc::new(f)) }
+fn observe(a: &Act) -> String { guard(|| a()).unwrap_or_else(|p| format!("PANIC {p}")) }
+fn on_fresh_thread<T: Send + 'static>(f: impl FnOnce() -> T + Send + 'static) -> T {
+    std::thread::Builder::new().stack_size(1 << 20).spawn(f).expect("spawn").join().expect("history thread does not panic: every action is guarded")
+}
+
+/// A writer that panics once `left` octets have been taken.
+struct PanicAfter { left: usize }
+impl Write for PanicAfter {
+    fn write(&mut self, b: &[u8]) -> io::Result<usize> { if self.left == 0 { panic!("sink panics") } let n = b.len().min(self.left); self.left -= n; Ok(n) }
+    fn flush(&mut self) -> io::Result<()> { Ok(()) }
+}
+/// A reader that fails after `left` octets.
+struct FailingReader<'a> { data: &'a [u8], left: usize }
+impl Read for FailingReader<'_> {
+    fn read(&mut self, b: &mut [u8]) -> io::Result<usize> {
+        if self.left == 0 { return Err(io::Error::other("source broke")) }
+        let n = b.len().min(self.left).min(self.data.len()); b[..n].copy_from_slice(&self.data[..n]); self.data = &self.data[n..]; self.left -= n; Ok(n)
+    }
+}
+
+fn history_files() -> Vec<(&'static str, MFile)> {
+    let pa = MPA { p: MPfx::v4([192, 0, 2, 0], 24), maxlen: Some(26), asn: 64496, comment: Some("a") };
+    let ba = MBA { asn: 64496, ski: K1, info: vec![0x30, 0x59, 0x30, 0x13], comment: None };
+    vec![
+        ("skis", MFile { bf: vec![MBF { ski: Some(K2), asn: None, comment: None }, MBF { ski: Some(KF), asn: Some(1), comment: Some("c") }], ba: vec![ba.clone(), MBA { asn: 1, ski: K0, info: vec![], comment: Some(TRICKY) }], ..Default::default() }),
+        ("prefixes", MFile { pf: vec![MPF { prefix: Some(MPfx::v6(0, 0x0000_ffff_c000_0200, 120)), asn: Some(7), comment: None }], pa: vec![pa.clone(), MPA { p: MPfx::v6(0x2001_0db8_0000_0000, 0, 32), maxlen: None, asn: 0, comment: None }], ..Default::default() }),
+        ("aspa", MFile { af: Some(vec![MAF { customer: Some(64496), comment: None }]), aa: Some(vec![MAA { customer: 64497, providers: vec![1, 2, u32::MAX], comment: Some("p") }]), ..Default::default() }),
+        ("all", MFile { pf: vec![MPF { prefix: None, asn: Some(64496), comment: Some(TRICKY) }], bf: vec![MBF { ski: Some(K1), asn: Some(64496), comment: None }], af: Some(vec![]), pa: vec![pa], ba: vec![ba], aa: Some(vec![MAA { customer: 1, providers: vec![], comment: None }]) }),
+        ("empty", MFile::default()),
+    ]
+}
+
+fn subjects() -> Vec<(String, Act)> {
+    let mut v: Vec<(String, Act)> = Vec::new();
+    for (name, m) in history_files() {
+        let m2 = m.clone();
+        v.push(act(&format!("round trip of file {name}"), move || { let f = m2.lib(); let s = f.to_string(); let p = f.to_string_pretty(); let mut w = Vec::new(); let e = f.to_writer(&mut w).is_ok(); let mut w2 = Vec::new(); let e2 = f.to_writer_pretty(&mut w2).is_ok();
+            format!("{s} | pretty {} octets | writer ok {e} {e2} same {} {} | back {:?} {:?} | payload {:?}", p.len(), w == s.as_bytes(), w2 == p.as_bytes(), SlurmFile::from_str(&s).map(|g| g == f).map_err(|e| e.to_string()), SlurmFile::from_reader(&w2[..]).map(|g| g == f).map_err(|e| e.to_string()),
+                f.assertions.iter_payload().map(|x| fields_of(&x).text()).collect::<Vec<_>>()) }));
+        let m3 = m.clone();
+        v.push(act(&format!("parse of hand-written text of file {name}"), move || { let t = m3.json(2, true); format!("{:?}", SlurmFile::from_str(&t).map(|f| f.to_string()).map_err(|e| e.to_string())) }));
+        let m4 = m;
+        v.push(act(&format!("drop decisions of file {name}"), move || { let f = m4.lib();
+            [MPay::Origin { p: MPfx::v4([192, 0, 2, 0], 24), maxlen: None, asn: 64496 }, MPay::Origin { p: MPfx::v6(0, 0x0000_ffff_c000_0201, 128), maxlen: None, asn: 7 }, MPay::Key { ski: K1, asn: 64496, info: vec![1] }, MPay::Key { ski: K2, asn: 5, info: vec![] },
+             MPay::Aspa { customer: 64496, providers: vec![1] }, MPay::Aspa { customer: 1, providers: vec![64496] }].iter().map(|p| if f.drop_payload(&p.lib()) { 'D' } else { 'k' }).collect::<String>() }));
+    }
+    for t in [r#"{"slurmVersion":3,"validationOutputFilters":{"prefixFilters":[],"bgpsecFilters":[]},"locallyAddedAssertions":{"prefixAssertions":[],"bgpsecAssertions":[]}}"#,
+        r#"{"slurmVersion":1,"validationOutputFilters":{"prefixFilters":[],"bgpsecFilters":[{"SKI":"PI8aIgURlvsA_36AAQIDBKq7zN"}]},"locallyAddedAssertions":{"prefixAssertions":[],"bgpsecAssertions":[]}}"#,
+        r#"{"slurmVersion":1,"validationOutputFilters":{"prefixFilters":[],"bgpsecFilters":[]},"locallyAddedAssertions":{"prefixAssertions":[{"prefix":"192.0.2.0/24","asn":1,"maxPrefixLength":23}],"bgpsecAssertions":[]}}"#,
+        r#"{"slurmVersion":1,"validationOutputFilters":{"prefixFilters":[],"bgpsecFilters":[]},"locallyAddedAssertions":{"prefixAssertions":[{"maxPrefixLength":25,"asn":1,"prefix":"192.0.2.0/24"}],"bgpsecAssertions":[{"routerPublicKey":"Zm9v","SKI":"PI8aIgURlvsA_36AAQIDBKq7zN0","asn":4294967295}]}}"#,
+        "{\"slurmVersion\":1,", "", "[]"] {
+        v.push(act(&format!("parse of {}", clip(t)), move || format!("{:?}", SlurmFile::from_str(t).map(|f| (f.to_string(), f.assertions.iter_payload().map(|x| fields_of(&x).text()).collect::<Vec<_>>())).map_err(|e| e.to_string()))));
+    }
+    v.push(act("Base64KeyInfo / Value route", || { let k = Base64KeyInfo::try_from(vec![0xfb, 0xff, 0x3e, 0, 1]).unwrap(); let f = history_files()[0].1.lib();
+        format!("{k} {:?} {:?} {:?}", Base64KeyInfo::from_str("-_8-AAE").map(|x| x == k).map_err(|_| ()), serde_json::to_value(&f).ok().map(|v| v.to_string()), serde_json::to_value(&f).ok().and_then(|v| serde_json::from_value::<SlurmFile>(v).ok()).map(|g| g == f)) }));
+    v
+}
+
+fn predecessors(thorough: bool) -> Vec<(String, Act)> {
+    let mut v: Vec<(String, Act)> = Vec::new();
+    let files = history_files();
+    // writers that stop at every k: a fixed slice of k octets, a sink that breaks after k, a sink that panics after k
+    for (name, m) in files.iter().take(if thorough { 5 } else { 2 }).chain(files.iter().skip(3).take(1)) { for pretty in [false, true] {
+        let len = guard(|| { let f = m.lib(); if pretty { f.to_string_pretty().len() } else { f.to_string().len() } }).unwrap_or(600);
+        for k in 0..=len { for kind in 0..3u8 {
+            if kind == 2 && pretty { continue }
+            let m = m.clone();
+            v.push(act(&format!("{} of file {name} into a sink that {} after {k} octets", if pretty { "to_writer_pretty" } else { "to_writer" }, ["is full", "breaks", "panics"][kind as usize]), move || { let f = m.lib();
+                let go = |w: &mut dyn Write| if pretty { f.to_writer_pretty(w).is_ok() } else { f.to_writer(w).is_ok() };
+                match kind { 0 => { let mut buf = vec![0u8; k]; format!("{}", go(&mut &mut buf[..])) } 1 => format!("{}", go(&mut FailAfter { left: k, got: Vec::new() })), _ => format!("{:?}", guard(|| go(&mut PanicAfter { left: k })).is_ok()) } }));
+        }}
+    }}
+    // parsers that stop at every stage: the text cut at every k; a source that breaks after k
+    for (name, m) in files.iter().take(2).chain(files.iter().skip(3).take(1)) {
+        let text: &'static str = leak(m.json(2, false));
+        for k in 0..text.len() {
+            if !text.is_char_boundary(k) { continue }
+            v.push(act(&format!("from_str of the text of file {name} cut at {k}"), move || format!("{}", SlurmFile::from_str(&text[..k]).is_ok())));
+            v.push(act(&format!("from_reader of the text of file {name}, source breaking after {k}"), move || format!("{}", SlurmFile::from_reader(FailingReader { data: text.as_bytes(), left: k }).is_ok())));
+        }
+    }
+    // successes on other files, small and large
+    v.push(act("to_string of a file with 300 router keys", || { let ba: Vec<MBA> = (0..300).map(|i| { let mut k = K1; k[0] = i as u8; k[1] = (i >> 8) as u8; MBA { asn: i, ski: k, info: vec![i as u8; 91], comment: None } }).collect();
+        let f = MFile { ba, ..Default::default() }.lib(); format!("{}", SlurmFile::from_str(&f.to_string()).map(|g| g == f).unwrap_or(false)) }));
+    v.extend(subjects().into_iter().map(|(n, a)| (format!("subject: {n}"), a)));
+    v
 }
 
 //------------ sinks and sources for the writer dimension --------------------
@@ -536,11 +704,18 @@ fn check_file_named(lf: &mut Lf, oc: &mut Oc, m: &MFile, name: &dyn Fn() -> Stri
         let acc: Option<String> = f.assertions.iter_payload().chain(back1.iter().flat_map(|b| b.assertions.iter_payload())).find_map(|p| accessor_disagreement(&p));
         let pays_back: Option<Vec<MPay>> = back1.as_ref().ok().map(|b| b.assertions.iter_payload().map(|p| fields_of(&p)).collect());
         let same_bytes = w1 == compact.as_bytes() && w2 == pretty.as_bytes();
-        (f, compact, [back1, back2, back3, back4], pays, pays_back, same_bytes, acc)
+        // the serde_json::Value route (a map keyed in sorted order): to_value -> from_value, and Value -> text -> from_str
+        let value_route: Result<(), String> = serde_json::to_value(&f).map_err(|e| format!("to_value: {e}")).and_then(|v| {
+            let txt = v.to_string();
+            match serde_json::from_value::<SlurmFile>(v) { Ok(g) if g == f => Ok(()), Ok(_) => Err("to_value -> from_value gives a different file".to_string()), Err(e) => Err(format!("from_value rejects the value: {e}")) }?;
+            match SlurmFile::from_str(&txt) { Ok(g) if g == f => Ok(()), Ok(_) => Err(format!("Value -> to_string -> from_str gives a different file; text={}", clip(&txt))), Err(e) => Err(format!("Value -> to_string -> from_str rejected: {e}; text={}", clip(&txt))) }
+        });
+        (f, compact, [back1, back2, back3, back4], pays, pays_back, same_bytes, acc, value_route)
     });
     match r {
         Err(p) => lf.fail("C15.json.no_panic", wit, || p.clone()),
-        Ok((f, compact, backs, pays, pays_back, _same, acc)) => {
+        Ok((f, compact, backs, pays, pays_back, _same, acc, value_route)) => {
+            if let Err(d) = value_route { lf.fail("C15.json.value_route", wit, || d.clone()) }
             if let Some(d) = acc { lf.fail("C15.assertions.payload.accessors", wit, || d.clone()) }
             for (i, b) in backs.iter().enumerate() {
                 let form = ["to_string/from_str", "to_string_pretty/from_str", "to_writer/from_reader", "to_writer_pretty/from_reader"][i];
@@ -1169,6 +1344,185 @@ fn main() {
         sp.sample_str(|| "one ASPA assertion with 16380 providers".to_string());
     });
     sp.done(true, "all listed counts for providers, key octets, entries per section, comment lengths, and filter lists with the match first / middle / last / absent");
+
+    // ------------------------------------------------------------------ (4d)
+    let sp = ctx.space("json.member_orders",
+        "the order of the members of a JSON object as a call parameter: for every single-entry file of every section, the history files and a file with one entry of each kind, as hand-written text and as the library's own to_string output: every object of the document gets its members in every order (all permutations up to 4 members; sorted, reversed and every rotation beyond), one object at a time, plus all objects at once sorted by key (what serde_json::Value and jq -S produce), sorted descending, reversed, rotated; the same for texts carrying one invalid member (max length below the prefix length / above the family maximum / negative / a string, host bits set, AS number out of range, SKI of 26 characters, bad Base64, provider out of range, an unknown member, a duplicate member): verdict and parsed file must be those of the original order; non-trivial = every reordered text");
+    space_body(&ctx, &sp.clone(), || {
+        let mut docs: Vec<(String, String)> = Vec::new();
+        let mut singles: Vec<MFile> = Vec::new();
+        for e in &pf_entries { singles.push(MFile { pf: vec![e.clone()], ..Default::default() }) }
+        for e in &bf_entries { singles.push(MFile { bf: vec![e.clone()], ..Default::default() }) }
+        for e in &af_entries { singles.push(MFile { af: Some(vec![e.clone()]), ..Default::default() }) }
+        for e in &pa_entries { singles.push(MFile { pa: vec![e.clone()], ..Default::default() }) }
+        for e in &ba_entries { singles.push(MFile { ba: vec![e.clone()], ..Default::default() }) }
+        for e in &aa_entries { singles.push(MFile { aa: Some(vec![e.clone()]), ..Default::default() }) }
+        for (_, m) in history_files() { singles.push(m) }
+        for m in &singles {
+            docs.push((format!("hand-written text of {}", m.text()), m.json(2, false)));
+            if let Ok(t) = guard(|| m.lib().to_string()) { docs.push((format!("to_string of {}", m.text()), t)) }
+        }
+        let all = history_files()[3].1.json(2, false);
+        for (from, tos) in [("\"maxPrefixLength\":26", vec!["\"maxPrefixLength\":23", "\"maxPrefixLength\":33", "\"maxPrefixLength\":129", "\"maxPrefixLength\":256", "\"maxPrefixLength\":-1", "\"maxPrefixLength\":\"26\"", "\"maxPrefixLength\":26,\"foo\":1", "\"maxPrefixLength\":26,\"maxPrefixLength\":26"]),
+            ("\"prefix\":\"192.0.2.0/24\"", vec!["\"prefix\":\"192.0.2.1/24\"", "\"prefix\":\"192.0.2.0/33\"", "\"prefix\":\"x\"", "\"prefix\":null"]),
+            ("\"asn\":64496", vec!["\"asn\":4294967296", "\"asn\":-1", "\"asn\":\"1\"", "\"asn\":64496,\"asn\":64496"]),
+            ("\"SKI\":\"PI8aIgURlvsA_36AAQIDBKq7zN0\"", vec!["\"SKI\":\"PI8aIgURlvsA_36AAQIDBKq7zN\"", "\"SKI\":\"PI8aIgURlvsA_36AAQIDBKq7zN0A\"", "\"SKI\":null", "\"SKI\":\"PI8aIgURlvsA_36AAQIDBKq7zN0\",\"bar\":[]"]),
+            ("\"routerPublicKey\":\"MFkwEw\"", vec!["\"routerPublicKey\":\"@@\"", "\"routerPublicKey\":5"]),
+            ("\"providerAsns\":[]", vec!["\"providerAsns\":[4294967296]", "\"providerAsns\":\"1\"", "\"providerAsns\":[],\"x\":0"]),
+            ("\"customerAsn\":1", vec!["\"customerAsn\":\"x\"", "\"customerAsn\":4294967296"]),
+            ("\"slurmVersion\":2", vec!["\"slurmVersion\":3", "\"slurmVersion\":\"2\"", "\"slurmVersion\":2,\"extra\":{}"])] {
+            if !all.contains(from) { ctx.machinery_error(format!("member_orders: pattern {from} not in the base text")); continue }
+            for to in tos { docs.push((format!("base file with {to}"), all.replace(from, to))) }
+        }
+        docs.par_chunks(8).for_each(|ch| {
+            unit(|| format!("member orders of {}", clip(&ch[0].0)), || {
+                let mut lf = Lf::new(); let mut oc = Oc::new(); let mut n = 0u64;
+                for (name, text) in ch { n += check_member_orders(&mut lf, &mut oc, text, &|| name.clone()) }
+                sp.evals(n); sp.nontrivial(n); sp.merge_outcomes(&oc);
+            });
+        });
+        sp.set("documents", serde_json::json!(docs.len()));
+        sp.sample_str(|| "{\"maxPrefixLength\":26,\"asn\":64496,\"prefix\":\"192.0.2.0/24\"} must parse like {\"prefix\":...,\"asn\":...,\"maxPrefixLength\":26}".to_string());
+    });
+    sp.done(true, "all listed documents x every object x every member order");
+
+    // ------------------------------------------------------------------ (4e)
+    let subj = subjects();
+    let baseline: Vec<String> = subj.iter().map(|(_, a)| { let a = a.clone(); on_fresh_thread(move || observe(&a)) }).collect();
+    let sp = ctx.space("history.independent",
+        "sequences instead of single evaluations: for every predecessor p (to_writer and to_writer_pretty of files with and without key identifiers into a fixed slice of k octets, into a sink that breaks after k octets and into a sink that panics after k octets, for EVERY k up to the length of the document; from_str of a text cut at every k and from_reader from a source that breaks after every k; a large successful serialisation; every subject) a dedicated OS thread runs p, then all subjects (round trips through to_string / to_string_pretty / to_writer / from_str / from_reader of five files, parses of hand-written valid and invalid texts, drop decisions, Base64 and serde_json::Value routes) in order and again in reverse order; every observation must equal that of the same subject evaluated first thing on its own fresh thread; thorough: more files and all ordered pairs of a 50-element selection; non-trivial = every (sequence, subject) evaluation");
+    space_body(&ctx, &sp.clone(), || {
+        let preds = predecessors(thorough);
+        let run_seq = |names: Vec<String>, acts: Vec<Act>| {
+            let subj2: Vec<(String, Act)> = subj.clone();
+            let seen: Vec<(usize, String)> = on_fresh_thread(move || {
+                for a in &acts { let _ = observe(a); }
+                let mut out = Vec::new();
+                for (i, (_, a)) in subj2.iter().enumerate() { out.push((i, observe(a))) }
+                for (i, (_, a)) in subj2.iter().enumerate().rev() { out.push((i, observe(a))) }
+                out
+            });
+            let mut lf = Lf::new(); let mut same = 0u64;
+            for (k, (i, o)) in seen.iter().enumerate() {
+                if *o == baseline[*i] { same += 1 } else {
+                    lf.fail("C15.history.independent", || format!("after [{}] subject [{}] ({} pass)", names.join("; "), subj[*i].0, if k < subj.len() { "first" } else { "reverse" }),
+                        || format!("observed {} but on a fresh thread the same call gives {}", clip(o), clip(&baseline[*i])));
+                }
+            }
+            sp.evals(seen.len() as u64); sp.nontrivial(seen.len() as u64); sp.traces(1);
+            sp.outcomes_n("same-as-fresh-thread", same); sp.outcomes_n("differs-from-fresh-thread", seen.len() as u64 - same);
+        };
+        preds.par_iter().for_each(|(n, a)| run_seq(vec![n.clone()], vec![a.clone()]));
+        let mut bound = format!("{} predecessors x {} subjects x 2 passes", preds.len(), subj.len());
+        if thorough {
+            let sel: Vec<&(String, Act)> = preds.iter().step_by((preds.len() / 50).max(1)).collect();
+            let pairs: Vec<(usize, usize)> = (0..sel.len()).flat_map(|i| (0..sel.len()).map(move |j| (i, j))).collect();
+            pairs.par_iter().for_each(|&(i, j)| run_seq(vec![sel[i].0.clone(), sel[j].0.clone()], vec![sel[i].1.clone(), sel[j].1.clone()]));
+            bound.push_str(&format!(" + all {} ordered pairs of {} predecessors", pairs.len(), sel.len()));
+        }
+        sp.outcome("baseline");
+        sp.set("subjects", serde_json::json!(subj.iter().map(|x| x.0.clone()).collect::<Vec<_>>()));
+        sp.set("predecessors", serde_json::json!(preds.len()));
+        sp.set("bound", serde_json::json!(bound));
+        sp.sample_str(|| format!("after [{}] subject [{}]", preds[40].0, subj[0].0));
+    });
+    sp.done(true, "every predecessor x all subjects x 2 passes (see 'bound')");
+
+    // ------------------------------------------------------------------ (4f)
+    let sp = ctx.space("handed_out.iter_payload",
+        "the iterator iter_payload() hands out: on a file with 2 + 2 + 2 assertions (and one with 3 + 0 + 1, one empty) every call sequence of length <= 3 over {next, nth(1), size_hint, by_ref().take(2).count(), clone-free peek via size_hint, drop} followed by collecting the rest: the items seen are the reference items in order with exactly the skipped ones missing, size_hint brackets what is left; two iterators over the same file advance independently; non-trivial = sequences that consume at least one item");
+    space_body(&ctx, &sp.clone(), || {
+        let pa = |i: u8| MPA { p: MPfx::v4([10, i, 0, 0], 16), maxlen: Some(20), asn: i as u32, comment: None };
+        let ba = |i: u8| MBA { asn: i as u32, ski: { let mut k = K1; k[0] = i; k }, info: vec![i; 3], comment: None };
+        let aa = |i: u8| MAA { customer: i as u32, providers: vec![i as u32 + 1], comment: None };
+        let files = [MFile { pa: vec![pa(1), pa(2)], ba: vec![ba(3), ba(4)], aa: Some(vec![aa(5), aa(6)]), ..Default::default() }, MFile { pa: vec![pa(1), pa(2), pa(3)], aa: Some(vec![aa(9)]), ..Default::default() }, MFile::default()];
+        let mut lf = Lf::new();
+        for m in &files {
+            let f = m.lib(); let reference = m.payloads();
+            for len in 0..=3usize { for code in 0..4usize.pow(len as u32) {
+                let ops: Vec<usize> = (0..len).map(|i| code / 4usize.pow(i as u32) % 4).collect();
+                sp.eval(); if ops.iter().any(|o| *o != 2) { sp.nontrivial(1) }
+                let wit = || format!("assertions={}+{}+{} ops={:?}", m.pa.len(), m.ba.len(), m.aa.as_ref().map_or(0, |x| x.len()), ops.iter().map(|o| ["next", "nth(1)", "size_hint", "by_ref().take(2).count()"][*o]).collect::<Vec<_>>());
+                let r = guard(|| {
+                    let mut it = f.assertions.iter_payload(); let mut other = f.assertions.iter_payload();
+                    let mut pos = 0usize; let mut seen: Vec<(usize, MPay)> = Vec::new(); let mut bad: Option<String> = None;
+                    for &o in &ops {
+                        match o {
+                            0 => { match it.next() { Some(x) => { seen.push((pos, fields_of(&x))); pos += 1 } None => if pos < reference.len() { bad = Some(format!("next() gave None at position {pos}")) } } }
+                            1 => { match it.nth(1) { Some(x) => { seen.push((pos + 1, fields_of(&x))); pos += 2 } None => { if pos + 1 < reference.len() { bad = Some(format!("nth(1) gave None at position {pos}")) } pos = reference.len() } } }
+                            2 => { let (lo, hi) = it.size_hint(); let left = reference.len() - pos.min(reference.len()); if lo > left || hi.map_or(false, |h| h < left) { bad = Some(format!("size_hint ({lo}, {hi:?}) with {left} items left")) } }
+                            _ => { let c = it.by_ref().take(2).count(); let left = reference.len() - pos.min(reference.len()); if c != left.min(2) { bad = Some(format!("take(2).count() = {c} with {left} left")) } pos += c }
+                        }
+                    }
+                    let rest: Vec<MPay> = it.map(|x| fields_of(&x)).collect();
+                    let all_other: Vec<MPay> = other.by_ref().map(|x| fields_of(&x)).collect();
+                    (seen, pos.min(reference.len()), rest, all_other, bad)
+                });
+                match r {
+                    Err(p) => lf.fail("C15.handed_out.iter_payload", wit, || p.clone()),
+                    Ok((seen, pos, rest, all_other, bad)) => {
+                        if let Some(b) = bad { lf.fail("C15.handed_out.iter_payload", wit, || b.clone()) }
+                        if seen.iter().any(|(i, x)| reference.get(*i) != Some(x)) || rest[..] != reference[pos..] || all_other != reference { lf.fail("C15.handed_out.iter_payload", wit, || format!("items seen {:?}, rest {:?}; the file's assertions are {:?}", seen.iter().map(|x| x.1.text()).collect::<Vec<_>>(), rest.iter().map(|x| x.text()).collect::<Vec<_>>(), reference.iter().map(|x| x.text()).collect::<Vec<_>>())) }
+                        sp.outcome(if rest.is_empty() { "exhausted" } else { "items-left" });
+                    }
+                }
+            }}
+        }
+    });
+    sp.done(true, "3 files x all 85 call sequences of length <= 3");
+
+    // ------------------------------------------------------------------ (4g)
+    let sp = ctx.space("ownership.key_info",
+        "who else holds the buffer: router key octets of 0, 1, 4, 91 and 300 octets handed to Base64KeyInfo / RouterKeyInfo as a Vec, as Bytes that are the sole owner, with a live clone, with a clone dropped just before, as a view into a larger Bytes, and from_static; the assertion built from each must serialise to the same text, parse back equal, yield the same payload octets (as_slice, AsRef, Deref, into_bytes, Display, Debug agree with a freshly parsed twin) and leave the clone / the surrounding buffer unchanged; Display of the key with width, alignment, fill, zero, sign and alternate flags must still read back; non-trivial = every (length, holder) pair");
+    space_body(&ctx, &sp.clone(), || {
+        static BIG: [u8; 400] = { let mut a = [0u8; 400]; let mut i = 0; while i < 400 { a[i] = (i * 37 % 251) as u8; i += 1 } a };
+        let mut lf = Lf::new();
+        for len in [0usize, 1, 4, 91, 300] {
+            let want: Vec<u8> = BIG[50..50 + len].to_vec();
+            let twin_text = guard(|| { let a = BgpsecAssertion::new(Asn::from_u32(1), KeyIdentifier::from(K1), Base64KeyInfo::try_from(want.clone()).unwrap(), None); serde_json::to_string(&a).unwrap() });
+            for holder in 0..6usize {
+                sp.eval(); sp.nontrivial(1);
+                let wit = || format!("key of {len} octets held as {}", ["Vec", "sole-owner Bytes", "Bytes with a live clone", "Bytes whose clone was just dropped", "view into a larger Bytes", "Bytes::from_static"][holder]);
+                let r = guard(|| {
+                    let whole = Bytes::copy_from_slice(&BIG[..]);
+                    let mut keep: Option<Bytes> = None;
+                    let info = match holder {
+                        0 => Base64KeyInfo::try_from(want.clone()).unwrap(),
+                        1 => Base64KeyInfo::try_from(Bytes::from(want.clone())).unwrap(),
+                        2 => { let b = Bytes::from(want.clone()); keep = Some(b.clone()); Base64KeyInfo::try_from(b).unwrap() }
+                        3 => { let b = Bytes::from(want.clone()); drop(b.clone()); Base64KeyInfo::try_from(b).unwrap() }
+                        4 => { keep = Some(whole.clone()); Base64KeyInfo::try_from(whole.slice(50..50 + len)).unwrap() }
+                        _ => Base64KeyInfo::try_from(Bytes::from_static(&BIG[50..50 + len])).unwrap(),
+                    };
+                    let shown = format!("{info}|{info:?}|{}|{}", info.as_ref().len(), info.len());
+                    let mut specs = Vec::new();
+                    for t in [format!("{info:>500}"), format!("{info:<500}"), format!("{info:*^501}"), format!("{info:0500}"), format!("{info:+}"), format!("{info:#}")] { specs.push(Base64KeyInfo::from_str(t.trim_matches(|c| c == ' ' || c == '*')).map(|x| x == want).unwrap_or(false)) }
+                    let a = BgpsecAssertion::new(Asn::from_u32(1), KeyIdentifier::from(K1), info, None);
+                    let text = serde_json::to_string(&a).unwrap();
+                    let back: BgpsecAssertion = serde_json::from_str(&text).unwrap();
+                    let file = SlurmFile::new(ValidationOutputFilters::new(Vec::new(), Vec::new()), LocallyAddedAssertions::new(Vec::new(), vec![a.clone()]));
+                    let pay: Vec<Payload> = file.assertions.iter_payload().collect();
+                    let k = pay[0].as_router_key().unwrap().key_info.clone();
+                    let octets_ok = k.as_slice() == &want[..] && AsRef::<[u8]>::as_ref(&k) == &want[..] && k.clone().into_bytes().as_ref() == &want[..] && back == a && back.router_public_key == want && a.router_public_key == want
+                        && Bytes::from(a.router_public_key.clone()).as_ref() == &want[..] && RouterKeyInfo::from(a.router_public_key.clone()).as_slice() == &want[..];
+                    let untouched = keep.map_or(true, |kp| if holder == 4 { kp.as_ref() == &BIG[..] } else { kp.as_ref() == &want[..] }) && whole.as_ref() == &BIG[..];
+                    (text, shown, specs, octets_ok, untouched, SlurmFile::from_str(&file.to_string()).map(|g| g == file).unwrap_or(false))
+                });
+                match (r, &twin_text) {
+                    (Err(p), _) => lf.fail("C15.ownership", wit, || p.clone()),
+                    (Ok((text, shown, specs, octets_ok, untouched, rt)), Ok(tw)) => {
+                        if &text != tw { lf.fail("C15.ownership", wit, || format!("serialises as {} but the twin built from a Vec gives {}", clip(&text), clip(tw))) }
+                        if !octets_ok || !rt { lf.fail("C15.ownership", wit, || format!("accessors / round trip disagree with the octets handed in ({shown})")) }
+                        if !untouched { lf.fail("C15.ownership", wit, || "the clone or the surrounding buffer changed".into()) }
+                        if specs.iter().any(|x| !x) { lf.fail("C15.display.format_spec", wit, || format!("Display with a format spec does not read back: {specs:?}")) }
+                        sp.outcome(if len == 0 { "empty-key" } else { "key" });
+                    }
+                    (_, Err(p)) => lf.fail("C15.ownership", wit, || p.clone()),
+                }
+            }
+        }
+    });
+    sp.done(true, "5 lengths x 6 holders");
 
     // ------------------------------------------------------------------ (5)
     let sp = ctx.space("json.text_inputs",
